@@ -29,7 +29,7 @@ import (
 
 func Main() {
 	mc.Main("C07", "exploration",
-		"every sorted index over every subset of a 6-key universe (plus one 20-entry index with every key deleted alone) {1,2,3(size 0),255,2^32+1,2^40} (64 indexes, 0..6 entries, written from an unsorted .idx that also holds an overwritten and a deleted key) x every deletion sequence: each universe key alone, every ordered pair (quick: on the indexes with >=5 entries; thorough: on all), every ordered triple on the full index (thorough); after every deletion the .ecx bytes, every FindNeedleFromEcx answer and the .ecj journal are compared with a reference; then reopen, RebuildEcxFile on the original index + journal, WriteIdxFileFromEcIndex, and the same deletions through SortedFileNeedleMap; 4-byte and 5-byte offset builds; distinct = (build, index size, deletion shape by presence/position, outcome)",
+		"every sorted index over every subset of a 6-key universe (plus one 20-entry index with every key deleted alone) {1,2,3(size 0),255,2^32+1,2^40} (64 indexes, 0..6 entries, written from an unsorted .idx that also holds an overwritten and a deleted key) x every deletion sequence: each universe key alone, every ordered pair (quick: on the indexes with >=5 entries; thorough: on all), every ordered triple on the full index (thorough); every pair and (full index) triple again with the EC volume closed and reopened before the last deletion; after every deletion the .ecx bytes, every FindNeedleFromEcx answer and the .ecj journal are compared with a reference; then reopen, RebuildEcxFile on the original index + journal, WriteIdxFileFromEcIndex, and the same deletions through SortedFileNeedleMap; 4-byte and 5-byte offset builds; distinct = (build, index size, deletion shape by presence/position, outcome)",
 		run)
 }
 
@@ -41,6 +41,8 @@ type C struct {
 	Mask  int      `json:"index_mask"` // subset of the universe present in the index
 	Dels  []uint64 `json:"deletions"`
 	Big   bool     `json:"big_index,omitempty"` // the 20-entry index (keys 10,20,..,200), all present
+	// Reopen > 0: the EC volume is closed and opened again (unmount / mount) before deletion number Reopen (0-based)
+	Reopen int `json:"reopen_before,omitempty"`
 }
 
 // keys is the key universe of the case.
@@ -125,7 +127,7 @@ func violate(r *mc.Run, class, msg string, c C) {
 				return true
 			}
 		}
-		if len(c.Dels) <= 2 {
+		if len(c.Dels) <= 2 && c.Reopen == 0 {
 			for _, v := range sortedMapCase(dir, c) {
 				if v.class == class {
 					return true
@@ -358,10 +360,18 @@ func oneCase(dir string, c C) []viol {
 	if v := findAll(c, s, ev, "find-before-delete"); len(v) > 0 {
 		return v
 	}
-	for _, d := range c.Dels {
+	for di, d := range c.Dels {
 		pos := s.posClass(d)
 		if s.deleted[d] {
 			pos += "-again"
+		}
+		if c.Reopen > 0 && di == c.Reopen {
+			ev.Close()
+			if ev, err = erasure_coding.NewEcVolume(types.HardDriveType, dir, dir, "", 1); err != nil {
+				closed = true
+				return append(vs, viol{"ecvolume-reopen:error", fmt.Sprintf("NewEcVolume: %v", err)})
+			}
+			pos += ":after-remount"
 		}
 		if err := ev.DeleteNeedleFromEcx(types.NeedleId(d)); err != nil {
 			return append(vs, viol{"ecx-delete:pos=" + pos + ":error", fmt.Sprintf("DeleteNeedleFromEcx(%d): %v", d, err)})
@@ -554,7 +564,11 @@ func delClass(c C) string {
 		}
 		sh = append(sh, p)
 	}
-	return fmt.Sprintf("n=%d|%s", n, strings.Join(sh, ","))
+	rm := ""
+	if c.Reopen > 0 {
+		rm = fmt.Sprintf("|remount-before-%d", c.Reopen)
+	}
+	return fmt.Sprintf("n=%d|%s%s", n, strings.Join(sh, ","), rm)
 }
 
 func cases(r *mc.Run) []C {
@@ -573,6 +587,18 @@ func cases(r *mc.Run) []C {
 		for _, a := range universe {
 			for _, b := range universe {
 				cs = append(cs, C{Mask: mask, Dels: []uint64{a, b}})
+				// the same pair with the volume unmounted and mounted again between the two deletions
+				cs = append(cs, C{Mask: mask, Dels: []uint64{a, b}, Reopen: 1})
+			}
+		}
+		if n == len(universe) {
+			// delete, delete, remount, delete on the full index
+			for _, a := range universe {
+				for _, b := range universe {
+					for _, d := range universe {
+						cs = append(cs, C{Mask: mask, Dels: []uint64{a, b, d}, Reopen: 2})
+					}
+				}
 			}
 		}
 		if !r.Quick() && n == len(universe) {
@@ -604,7 +630,7 @@ func runCase(r *mc.Run, dir string, c C) {
 	}
 	r.Case(fmt.Sprintf("%s|ecx|%s|%s", c.Build, delClass(c), out))
 	// the sorted-file needle map: single and double deletions only
-	if len(c.Dels) <= 2 {
+	if len(c.Dels) <= 2 && c.Reopen == 0 {
 		vs = sortedMapCase(dir, c)
 		out = "ok"
 		for _, v := range vs {
@@ -627,7 +653,7 @@ func run(r *mc.Run) {
 			for _, v := range oneCase(dir, c) {
 				r.Violate(v.class, v.msg, c, nil)
 			}
-			if len(c.Dels) <= 2 {
+			if len(c.Dels) <= 2 && c.Reopen == 0 {
 				for _, v := range sortedMapCase(dir, c) {
 					r.Violate(v.class, v.msg, c, nil)
 				}
